@@ -578,3 +578,61 @@ def k10(ctx):
                               "`%s` passes %s to do_commit: commit header fields derived from request data can make the object invalid for git "
                               "(negative or overflowing dates fail `git fsck`)" % (src(c)[:70], ", ".join(extra))))
     return obs
+
+
+@rule("C09", "K11", floor=1, kind="S",
+      desc="who may write inside a repository: a request whose path has a `.git` component never reaches the WebDAV "
+           "handlers - the WSGI front end routes on membership of GIT_PATH in the path components (also for a path that "
+           "ends in `.git`)")
+def k11(ctx):
+    f = ctx.own_method("xandikos.web.XandikosApp", "_handle_request")
+    cfg = ctx.cfg(f)
+    obs = []
+    sup = [n for n in cfg.stmt_nodes() for c in n.calls() if isinstance(c.func, ast.Attribute) and c.func.attr == "_handle_request"
+           and isinstance(c.func.value, ast.Call) and dotted(c.func.value.func) == "super"]
+    if not sup:
+        raise AnalysisError("XandikosApp._handle_request: delegation to the WebDAV handler not found")
+    # membership tests `GIT_PATH in <path>.split('/')`
+    mem = []
+    for t in [x for x in cfg.nodes if x.kind == "test"]:
+        e = t.ast
+        if isinstance(e, ast.Compare) and len(e.ops) == 1 and isinstance(e.ops[0], (ast.In, ast.NotIn)):
+            rhs = e.comparators[0]
+            if ctx.P.try_fold(f.module, e.left) == ".git" and isinstance(rhs, ast.Call) and isinstance(rhs.func, ast.Attribute) and rhs.func.attr == "split" \
+                    and "path" in src(rhs.func.value) and (not rhs.args or ctx.P.try_fold(f.module, rhs.args[0]) == "/"
+                                                            or (dotted(rhs.args[0]) or "").endswith(".sep")):
+                mem.append((t, "f" if isinstance(e.ops[0], ast.In) else "t"))
+    # the same decision taken with `<path>.split('/').index(GIT_PATH)` / ValueError: the 'not found' side is the exceptional edge
+    idx_blocked = []
+    du_ = DefUse(cfg)
+    from ..dataflow import origins as _origins
+    for n_ in cfg.stmt_nodes():
+        for c_ in n_.calls():
+            if isinstance(c_.func, ast.Attribute) and c_.func.attr == "index" and c_.args \
+                    and ctx.P.try_fold(ctx.module_at(f, n_), c_.args[0]) == ".git":
+                ro = _origins(du_, n_, c_.func.value)
+                if ro and all(o.kind == "expr" and isinstance(o.leaf, ast.Call) and isinstance(o.leaf.func, ast.Attribute) and o.leaf.func.attr == "split" for o in ro):
+                    for m_, l in n_.succ:
+                        if l == "exc" and m_.kind == "handler" and m_.ast.type is not None and "ValueError" in src(m_.ast.type):
+                            idx_blocked.append((n_, m_, l))
+    # the WSGI-only switch (`start_response` is None under aiohttp, which has no git exporter)
+    wsgi = [(t, "f") for t in cfg.nodes if t.kind == "test" and isinstance(t.ast, ast.Name) and t.ast.id in f.params]
+    for n in sup:
+        ok = False
+        if mem or idx_blocked:
+            blocked = [(t, m_, l) for t, lab in mem + wsgi for m_, l in t.succ if l == lab] + idx_blocked
+            ok = n.id not in cfg.reachable([cfg.entry], block_edges=blocked)
+        obs.append(ctx.ob(ok, f.qualname, where(f, n), "DAV handler unreachable for WSGI paths with a .git component",
+                          "reached only if GIT_PATH not in request.path.split('/')",
+                          "the WebDAV handler can be reached although the request path has a `.git` component (the routing test is not "
+                          "`'.git' in request.path.split('/')`): a request for `<collection>/.git` can create, modify or delete files inside the repository"))
+    return obs
+
+
+@rule("C09", "K12", floor=2, kind="N",
+      desc="DELETE acts on members only: it needs the ETag of the addressed resource (the DeleteMethod obligations of "
+           "C03/P2) - a directory inside a bare repository has none, so the request fails instead of reaching the rmtree "
+           "fallback")
+def k12(ctx):
+    from .c03 import p2
+    return [o for o in p2(ctx) if "DeleteMethod" in o.construct]
